@@ -429,7 +429,9 @@ func init() {
 	vh.AddPart("C07", "sys", "sim", vh.Opts{Shards: 16, TimeoutS: 400, TimeoutSThorough: 3000},
 		func(e *vh.Env) []c07Sys {
 			var cs []c07Sys
-			fixed := []string{"fffToo", "rrTo", "xxTo", "ffToTo", "ufTfTo", "fafafIfo", "oofoIfof", "rfxToTo", "fTfTfTo", "ffTooffo", "nfnfTnn"}
+			// h: a backend that never answers, with the server's write timeout (2 s) shorter than backend_read (5 s): the
+			// exchange is given up at the write timeout and is a failure like any other
+			fixed := []string{"fffToo", "rrTo", "xxTo", "ffToTo", "ufTfTo", "fafafIfo", "oofoIfof", "rfxToTo", "fTfTfTo", "ffTooffo", "nfnfTnn", "hho", "hhhToo", "fhTo"}
 			cfgs := [][3]int{{1, 1, 1}, {2, 1, 1}, {2, 2, 2}, {3, 1, 2}, {2, 2, 3}}
 			for si, st := range allStrategies {
 				for ci, cf := range cfgs {
@@ -467,6 +469,9 @@ func c07SysRun(e *vh.Env, c c07Sys, o *vh.Out, prop string) {
 	cfg.CircuitBreaker.TimeoutSeconds = 30
 	cfg.Server.Timeouts.BackendRead = 5
 	cfg.Server.Timeouts.BackendDial = 2
+	if strings.Contains(c.Seq, "h") {
+		cfg.Server.Timeouts.Write = 2
+	}
 	if err := cfg.Validate(); err != nil {
 		o.Inconcl("config rejected: %v", err)
 		return
@@ -502,10 +507,12 @@ func c07SysRun(e *vh.Env, c c07Sys, o *vh.Out, prop string) {
 			sc = vh.Script{Status: 200, Framing: "cl", Declared: 5000, Steps: []vh.Step{{Op: "write", N: 100}, {Op: "flush"}, {Op: "closeconn"}}}
 		case 'r':
 			sc = vh.Script{RawReset: true} // connection dropped before any response: the backend is unreachable for this request
+		case 'h':
+			sc = vh.Script{HangFirst: true}
 		}
 		before := bes[0].Count() + bes[1].Count()
 		t := time.Since(origin)
-		rs := vh.Do(sys.Addr, vh.RawReq{Method: "GET", Target: "/r", Headers: [][2]string{{vh.ScriptHeader, sc.Encode()}}, TimeoutMs: 60000, Instant: true})
+		rs := vh.Do(sys.Addr, vh.RawReq{Method: "GET", Target: "/r", Headers: [][2]string{{vh.ScriptHeader, sc.Encode()}}, TimeoutMs: 60000, Instant: ev != 'h'})
 		vh.Settle()
 		arrived := bes[0].Count() + bes[1].Count() - before
 		body := string(rs.Body)
@@ -521,6 +528,8 @@ func c07SysRun(e *vh.Env, c c07Sys, o *vh.Out, prop string) {
 			out = vh.RanFail
 		case ev == 'x' && ((rs.Status == 200 && !rs.Complete) || (rs.Status == 0 && rs.Err != "" && arrived > 0)):
 			out = vh.RanPanic // aborted response: truncated body or connection closed without a response
+		case ev == 'h' && arrived > 0 && (rs.Status == 502 || (rs.Status == 0 && rs.Err != "")):
+			out = vh.RanFail // given up at the write timeout: 502, or nothing if the deadline for writing it had passed too
 		default:
 			o.Viol(prop+"|sys|unexpected-response", fmt.Sprintf("%s seq=%s step %d (%c): status %d complete=%v err=%q body=%q", c.Strategy, c.Seq, i, ev, rs.Status, rs.Complete, rs.Err, trunc(body, 80)), nil)
 			return
